@@ -129,7 +129,9 @@ def header_note(repo):
     note = re.sub(r'\s*\n \* ?', ' ', m.group(1)).strip()
     named = re.findall(r'\b(Crystal\w+)\b', note)
     hdrs = ''.join(open(os.path.join(repo, 'include', f)).read() for f in sorted(os.listdir(os.path.join(repo, 'include'))) if f.endswith('.h'))
-    stale = [n for n in named if not re.search(r'\b%s\s*\(' % re.escape(n), hdrs)]
+    hdrs = hdrs.replace(m.group(0), ' ')           # a name counts as existing when a header declares it (function or type) OUTSIDE the note
+    stale = sorted(set(n for n in named if not re.search(r'\b%s\b' % re.escape(n), hdrs)))
+    named = sorted(set(named))
     return dict(present=True, named=named, stale=stale, text=note, says_not_thread_safe=bool(re.search(r'not thread.?safe', note, flags=re.I)),
                 says_locking=bool(re.search(r'lock', note, flags=re.I)))
 
